@@ -18,6 +18,14 @@ from sa.report import Report
 
 FUSION = "teaal.ir.fusion.Fusion"
 
+# reviewed exemption (by class name, with reason)
+S8_EXEMPT = {
+    "MergerComponent": "on the pinned tree mergers derive from Component, not FunctionalComponent, although "
+                       "the FunctionalComponent docstring lists them; the property speaks of functional "
+                       "components as the code classifies them, so this is recorded as an observation "
+                       "(DESIGN.md section 4), not as a violation",
+}
+
 
 def _is_self_attr(e: ast.AST, attr: Optional[str] = None) -> bool:
     return isinstance(e, ast.Attribute) and isinstance(e.value, ast.Name) and \
@@ -308,6 +316,56 @@ def run(db: DB, rep: Report) -> None:
                   "of the functional components bound in the incoming Einsum (source ok: %s, "
                   "filled: %s); the component condition would hold vacuously" % (src_ok, fill_ok))
 
+    # ---- S7: the temporal prefix is "loop ranks ahead of the first spatial rank"
+    rep.rule("S7", "incoming temporal prefix = loop ranks before the first spatial rank (all of them "
+             "when there is no spatial rank)", 1)
+    if "ranks" in kinds_found:
+        _, local = kinds_found["ranks"]
+        _check_prefix(db, rep, f, local)
+
+    # ---- S8: what counts as a functional component
+    rep.rule("S8", "every component class with a clock-based time model is covered by the class the "
+             "fusion decision filters on", 3)
+    filt = None
+    for n in walk_no_nested(fn):
+        if isinstance(n, ast.Call) and isinstance(n.func, ast.Attribute) and n.func.attr == "get_components" \
+                and len(n.args) >= 2 and isinstance(n.args[1], ast.Name):
+            ent = f.module.ns.get(n.args[1].id)
+            if ent and ent[0] == "class":
+                filt = ent[1]
+    if filt is None:
+        raise AnalysisError("class filter of the fusion decision not found")
+    covered = {filt.qualname} | {k.qualname for k in filt.all_subclasses()}
+    coll = db.cls("teaal.trans.collector.Collector")
+    n_clock = 0
+    for g in coll.methods.values():
+        uses_clock = any(isinstance(x, ast.Call) and isinstance(x.func, ast.Attribute) and
+                         x.func.attr == "get_frequency" for x in walk_no_nested(g.node))
+        registers = any(isinstance(x, ast.Call) and isinstance(x.func, ast.Attribute) and
+                        x.func.attr == "add_component" for x in walk_no_nested(g.node))
+        if not (uses_clock and registers):
+            continue
+        for x in walk_no_nested(g.node):
+            if isinstance(x, ast.For) and isinstance(x.iter, ast.Call) and isinstance(x.iter.func, ast.Attribute) \
+                    and x.iter.func.attr == "get_components" and len(x.iter.args) >= 2 and \
+                    isinstance(x.iter.args[1], ast.Name):
+                ent = g.module.ns.get(x.iter.args[1].id)
+                if not (ent and ent[0] == "class"):
+                    continue
+                n_clock += 1
+                k = ent[1]
+                exempt = S8_EXEMPT.get(k.name)
+                ok = k.qualname in covered or exempt is not None
+                rep.check("S8", ok, db.loc(x), g.short, "timed-class:" + k.name,
+                          "%s (clock-based time in %s) is %s" % (
+                              k.name, g.short, "a " + filt.name if k.qualname in covered
+                              else "exempt: " + str(exempt)),
+                          "%s has a clock-based time model (%s) but is not a %s, the class the fusion "
+                          "decision uses to find the functional components bound in an Einsum: two Einsums "
+                          "sharing such a unit would be put in one block" % (k.name, g.short, filt.name))
+    if n_clock < 3:
+        raise AnalysisError("fewer than 3 clock-timed component classes found in Collector (%d)" % n_clock)
+
     # ---- S5: one feed per Einsum
     rep.rule("S5", "HiFiber.__translate calls fusion.add_einsum once, under the guard that "
              "builds Metrics, outside any loop", 1)
@@ -348,6 +406,80 @@ def run(db: DB, rep: Report) -> None:
                   "Fusion.add_einsum is also called from %s; an Einsum could be listed twice" % g.short)
 
 
+def _check_prefix(db: DB, rep: Report, f, local: str) -> None:
+    fn = f.node
+    L = S = None
+    for n in walk_no_nested(fn):
+        if isinstance(n, ast.Assign) and len(n.targets) == 1 and isinstance(n.targets[0], ast.Name):
+            cs = paths.called_names([n.value])
+            if "get_loop_order" in cs and "get_ranks" in cs:
+                L = n.targets[0].id
+            if "get_space" in cs:
+                S = n.targets[0].id
+    if L is None or S is None:
+        raise AnalysisError("loop-rank / space-rank locals of Fusion.add_einsum not found")
+
+    def is_whole(v: ast.AST) -> bool:
+        t = norm(v)
+        return t in (L, L + ".copy()", "list(%s)" % L, L + "[:]")
+
+    def first_space_index(e: ast.AST) -> bool:
+        return norm(e) == "%s.index(%s[0])" % (L, S)
+
+    def min_index(e: ast.AST):
+        """min((L.index(r) for r in S), default=X) -> X or '' if no default; None if other form"""
+        if not (isinstance(e, ast.Call) and isinstance(e.func, ast.Name) and e.func.id == "min" and e.args):
+            return None
+        g = e.args[0]
+        if not (isinstance(g, (ast.GeneratorExp, ast.ListComp)) and len(g.generators) == 1 and
+                norm(g.generators[0].iter) == S and not g.generators[0].ifs and
+                isinstance(g.generators[0].target, ast.Name) and
+                norm(g.elt) == "%s.index(%s)" % (L, g.generators[0].target.id)):
+            return None
+        for kw in e.keywords:
+            if kw.arg == "default":
+                return norm(kw.value)
+        return ""
+    defs = [(st, v) for st, v in paths.defs_of(fn, local) if v is not None]
+    if not defs:
+        raise AnalysisError("no definition of the incoming temporal prefix found")
+    sdefs = {k: val for k, val in paths.single_assignments(fn).items() if k not in (L, S)}
+    for st, v in defs:
+        v = paths.inline_locals(v, fn, sdefs)
+        guard = [(norm(a), p) for t, pol in paths.guards(st, stop=fn) for a, p in paths.conjuncts(t, pol)]
+        s_true = (S, True) in guard
+        s_false = (S, False) in guard
+        where = db.loc(st)
+        if is_whole(v):
+            rep.check("S7", s_false, where, f.short, "prefix:whole-order",
+                      "without spatial ranks the prefix is the whole loop order",
+                      "the temporal prefix is the whole loop order on a path that is not restricted to "
+                      "'no spatial ranks' (guard %s)" % guard)
+            continue
+        if isinstance(v, ast.Subscript) and isinstance(v.slice, ast.Slice) and norm(v.value) == L:
+            sl = v.slice
+            if sl.lower is not None or sl.step is not None:
+                rep.check("S7", False, where, f.short, "prefix:" + norm(v),
+                          "prefix slice " + norm(v),
+                          "the temporal prefix %s does not start at the outermost loop rank" % norm(v))
+                continue
+            if sl.upper is not None and first_space_index(sl.upper):
+                rep.check("S7", s_true or not s_false, where, f.short, "prefix:before-first-space",
+                          "with spatial ranks the prefix stops before the first spatial rank", "")
+                continue
+            mi = min_index(sl.upper) if sl.upper is not None else None
+            if mi is not None:
+                ok = mi == "len(%s)" % L or s_true
+                rep.check("S7", ok, where, f.short, "prefix:min-index(default=%s)" % mi,
+                          "prefix stops before the earliest spatial rank (default %s)" % (mi or "none"),
+                          "for an Einsum without spatial ranks the temporal prefix becomes %s[:%s] instead of "
+                          "the whole loop order: purely temporal Einsums with different loop orders would "
+                          "compare equal and be fused" % (L, mi or "<error>"))
+                continue
+        raise AnalysisError("the derivation of the temporal prefix (%s at %s) has a form this checker does "
+                            "not recognise; it cannot decide rule S7" % (norm(v)[:80], where))
+
+
 def mutants(db: DB):
     from sa.selftest import M
     rel = "teaal/ir/fusion.py"
@@ -379,6 +511,22 @@ def mutants(db: DB):
         M("components never added", rel, "                components_used.add(component.get_name())\n",
           "                pass\n", "S6"),
         M("components of another class", rel, "einsum, FunctionalComponent)", "einsum, MemoryComponent)", "S6"),
+        M("prefix default 0 without spatial ranks", rel,
+          "        if space_ranks:\n            fused_ranks = loop_ranks[:loop_ranks.index(space_ranks[0])]\n        else:\n            fused_ranks = loop_ranks\n",
+          "        fused_ranks = loop_ranks[:min((loop_ranks.index(r) for r in space_ranks), default=0)]\n", "S7"),
+        M("prefix skips the outermost rank", rel, "fused_ranks = loop_ranks[:loop_ranks.index(space_ranks[0])]",
+          "fused_ranks = loop_ranks[1:loop_ranks.index(space_ranks[0])]", "S7"),
+        M("whole loop order even with spatial ranks", rel,
+          "            fused_ranks = loop_ranks[:loop_ranks.index(space_ranks[0])]\n        else:\n            fused_ranks = loop_ranks",
+          "            fused_ranks = loop_ranks\n        else:\n            fused_ranks = loop_ranks", "S7"),
+        M("benign: min-index with default len", rel,
+          "        if space_ranks:\n            fused_ranks = loop_ranks[:loop_ranks.index(space_ranks[0])]\n        else:\n            fused_ranks = loop_ranks\n",
+          "        fused_ranks = loop_ranks[:min((loop_ranks.index(r) for r in space_ranks), default=len(loop_ranks))]\n",
+          (), benign=True),
+        M("sequencers no longer functional components", "teaal/ir/component.py",
+          "class SequencerComponent(FunctionalComponent):", "class SequencerComponent(Component):", "S8"),
+        M("fusion filters on compute units only", rel, "einsum, FunctionalComponent)", "einsum, ComputeComponent)",
+          ("S8", "S6")),
         M("feed outside metrics guard", "teaal/trans/hifiber.py",
           "            self.fusion.add_einsum(self.program)\n\n",
           "\n        if self.hardware:\n            self.fusion.add_einsum(self.program)\n\n", "S5"),
